@@ -19,7 +19,7 @@
 
   Left out on purpose: docstrings, comments, the message of a raised exception, and the
   format string / computed arguments of `log().debug(…)` — of a logging call only the
-  subscripts it evaluates are kept (`S.log`), because `rx_data[3]` raises IndexError on a
+  subscripts and calls it evaluates are kept (`S.log`), because `rx_data[3]` raises IndexError on a
   short frame.
 
   Fail closed: a name outside `Sym` becomes `Sym.other crc32(name)`, an expression or statement
@@ -84,7 +84,7 @@ mutual
 /-- statements -/
 inductive S where
   | expr (e : E)                       -- call for its effect
-  | log (subs : Es)                    -- log().debug(…): the subscripts it evaluates
+  | log (subs : Es)                    -- log().debug(…): the subscripts and calls it evaluates
   | assign (target e : E)
   | aug (op : BinOp) (target e : E)    -- target op= e
   | ite (c : E) (t f : B)
